@@ -212,3 +212,408 @@ pub fn first_diff(a: &[u8], b: &[u8]) -> Option<usize> {
         None
     }
 }
+
+// ------------------------------------------------------------------------------------------------
+// model-driven conversations
+
+use crate::model::{Exp, ExpCb, ExpParam, ExpVal, MCmd, Model};
+use crate::wire::{PVal, Param};
+
+#[derive(Default, Clone)]
+pub struct Conv {
+    pub m: Vec<MCmd>,
+    pub scripts: Vec<Script>,
+    pub exp: Vec<Exp>,
+    pub model: Model,
+}
+
+pub fn encode(m: &MCmd) -> Cmd {
+    match m {
+        MCmd::Query(q) => Cmd::query(q),
+        MCmd::Prepare(q) => Cmd::prepare(q),
+        MCmd::Init(n) => Cmd::init_db(n),
+        MCmd::FieldList(a) => Cmd::field_list(a),
+        MCmd::Ping => Cmd::ping(),
+        MCmd::Quit => Cmd::quit(),
+        MCmd::Close(id) => Cmd::close(*id),
+        MCmd::LongData { id, param, data } => Cmd::long_data(*id, *param, data),
+        MCmd::Execute { id, params, send_types } => Cmd::execute(*id, params, *send_types),
+    }
+}
+
+impl Conv {
+    pub fn over(&self) -> bool {
+        self.model.over
+    }
+    /// Append a command. `script` is queued only if the model says the command reaches a scripted
+    /// callback (query / prepare / execute / init).
+    pub fn push(&mut self, c: MCmd, script: Option<Script>) -> Exp {
+        let e = self.model.step(&c, script.as_ref());
+        if let Exp::Cb(cb) = &e {
+            if !matches!(cb, ExpCb::Close(_)) {
+                self.scripts.push(script.unwrap_or_else(|| match cb {
+                    ExpCb::Prepare(_) => Script::PrepOk { id: 1, params: vec![], cols: vec![] },
+                    ExpCb::Init(_) => Script::InitOk,
+                    _ => Script::Q(QProg::completed(0, 0)),
+                }));
+            }
+        }
+        self.m.push(c);
+        self.exp.push(e.clone());
+        e
+    }
+    pub fn cmds(&self) -> Vec<Cmd> {
+        self.m.iter().map(encode).collect()
+    }
+    pub fn case(&self) -> Case {
+        Case::new(self.cmds(), self.scripts.clone())
+    }
+    pub fn summary(&self) -> String {
+        kinds_summary(&self.cmds())
+    }
+}
+
+pub fn inner_matches(i: &Inner, e: &ExpVal) -> bool {
+    match (i, e) {
+        (Inner::Null, ExpVal::Null) => true,
+        (Inner::Int(a), ExpVal::Int(b)) => a == b,
+        (Inner::UInt(a), ExpVal::UInt(b)) => a == b,
+        (Inner::Double(a), ExpVal::Double(b)) => a == b,
+        (Inner::Bytes(a), ExpVal::Bytes(b)) => a == b,
+        (Inner::Date(a), ExpVal::Date(b)) => a == b,
+        (Inner::Time(a), ExpVal::Time(b)) => a == b,
+        (Inner::Datetime(a), ExpVal::Datetime(b)) => a == b,
+        _ => false,
+    }
+}
+
+pub fn show_inner(i: &Inner) -> String {
+    match i {
+        Inner::Bytes(b) => format!("Bytes({})", show(b)),
+        o => format!("{:?}", o),
+    }
+}
+pub fn show_expval(e: &ExpVal) -> String {
+    match e {
+        ExpVal::Bytes(b) => format!("Bytes({})", show(b)),
+        ExpVal::Double(b) => format!("Double({:?})", f64::from_bits(*b)),
+        o => format!("{:?}", o),
+    }
+}
+
+/// Compare one observed callback with the expected one. Returns Err(class, description).
+pub fn cb_matches(cb: &Cb, e: &ExpCb) -> Result<(), (String, String)> {
+    let mism = |what: &str| Err((format!("wrong-callback"), format!("expected {} but the shim saw {}", what, cb_summary(cb))));
+    match (e, &cb.kind) {
+        (ExpCb::Query(t), CbKind::Query(g)) => {
+            if t != g {
+                return Err(("query-text-altered".into(), format!("on_query got {} but the client sent {}", show(g), show(t))));
+            }
+            Ok(())
+        }
+        (ExpCb::Prepare(t), CbKind::Prepare(g)) => {
+            if t != g {
+                return Err(("prepare-text-altered".into(), format!("on_prepare got {} but the client sent {}", show(g), show(t))));
+            }
+            Ok(())
+        }
+        (ExpCb::Init(t), CbKind::Init(g)) => {
+            if t != g {
+                return Err(("schema-name-altered".into(), format!("on_init got {} but the bare schema name is {}", show(g), show(t))));
+            }
+            Ok(())
+        }
+        (ExpCb::Close(a), CbKind::Close(b)) => {
+            if a != b {
+                return Err(("close-id-altered".into(), format!("on_close got {} but the client closed {}", b, a)));
+            }
+            Ok(())
+        }
+        (ExpCb::Execute { id, params }, CbKind::Execute { id: gid, params: gp }) => {
+            if id != gid {
+                return Err(("execute-id-altered".into(), format!("on_execute got id {} but the client executed {}", gid, id)));
+            }
+            if params.len() != gp.len() {
+                return Err(("param-count".into(), format!("on_execute saw {} parameters, statement declares {}", gp.len(), params.len())));
+            }
+            for (i, (e, g)) in params.iter().zip(gp.iter()).enumerate() {
+                if e.typ != g.coltype {
+                    return Err(("param-type".into(), format!("parameter {}: coltype 0x{:02x}, client bound 0x{:02x}", i, g.coltype, e.typ)));
+                }
+                if !inner_matches(&g.inner, &e.val) {
+                    return Err((
+                        "param-value".into(),
+                        format!("parameter {} (type 0x{:02x}{}): shim saw {}, client sent {}", i, e.typ, if e.unsigned { " unsigned" } else { "" }, show_inner(&g.inner), show_expval(&e.val)),
+                    ));
+                }
+            }
+            Ok(())
+        }
+        (ExpCb::Query(_), _) => mism("on_query"),
+        (ExpCb::Prepare(_), _) => mism("on_prepare"),
+        (ExpCb::Init(_), _) => mism("on_init"),
+        (ExpCb::Close(_), _) => mism("on_close"),
+        (ExpCb::Execute { .. }, _) => mism("on_execute"),
+    }
+}
+
+/// Full-log routing check: the ordered callback list (without after_authentication) must equal the
+/// model's list, and run_on's outcome must match the model's connection outcome.
+/// Returns the violations as (signature-suffix, description).
+pub fn routing_violations(obs: &Obs, conv: &Conv) -> Vec<(String, String)> {
+    let mut out = Vec::new();
+    let got: Vec<&Cb> = obs.log.cbs.iter().filter(|c| !matches!(c.kind, CbKind::Auth { .. })).collect();
+    let mut gi = 0;
+    let mut end: Option<&Exp> = None;
+    for (ci, e) in conv.exp.iter().enumerate() {
+        match e {
+            Exp::Cb(cb) => {
+                match got.get(gi) {
+                    None => {
+                        out.push(("missing-callback".into(), format!("command #{} ({:?}-kind) never reached the shim", ci, exp_name(cb))));
+                        return out;
+                    }
+                    Some(g) => {
+                        if let Err((c, d)) = cb_matches(g, cb) {
+                            out.push((c, format!("command #{}: {}", ci, d)));
+                            return out;
+                        }
+                    }
+                }
+                gi += 1;
+            }
+            Exp::Builtin | Exp::Silent => {}
+            Exp::Quit | Exp::ConnErr(_) => {
+                end = Some(e);
+                break;
+            }
+        }
+    }
+    if got.len() > gi {
+        let why = match end {
+            Some(Exp::ConnErr(w)) => format!(" although the connection had to end with an error ({})", w),
+            Some(Exp::Quit) => " after COM_QUIT".to_string(),
+            _ => String::new(),
+        };
+        out.push(("extra-callback".into(), format!("unexpected callback {}{}", cb_summary(got[gi]), why)));
+        return out;
+    }
+    match end {
+        Some(Exp::ConnErr(w)) => {
+            if !obs.outcome.is_err() {
+                out.push(("conn-not-ended-with-error".into(), format!("run_on returned {} but the connection had to end with an error: {}", obs.outcome.describe(), w)));
+            }
+        }
+        _ => {
+            if obs.outcome != Outcome::Ok {
+                out.push(("run_on-not-ok".into(), format!("run_on returned {} for a conversation that ends at a command boundary", obs.outcome.describe())));
+            }
+        }
+    }
+    out
+}
+
+fn exp_name(cb: &ExpCb) -> &'static str {
+    match cb {
+        ExpCb::Query(_) => "on_query",
+        ExpCb::Prepare(_) => "on_prepare",
+        ExpCb::Init(_) => "on_init",
+        ExpCb::Execute { .. } => "on_execute",
+        ExpCb::Close(_) => "on_close",
+    }
+}
+
+// ------------------------------------------------------------------------------------------------
+// parameter generators (client side)
+
+pub const INT_TYPES: [u8; 6] = [wire::T_TINY, wire::T_SHORT, wire::T_YEAR, wire::T_INT24, wire::T_LONG, wire::T_LONGLONG];
+
+pub fn int_range(typ: u8, unsigned: bool) -> (i128, i128) {
+    let bits = 8 * wire::int_width(typ).unwrap() as u32;
+    if unsigned {
+        (0, (1i128 << bits) - 1)
+    } else {
+        (-(1i128 << (bits - 1)), (1i128 << (bits - 1)) - 1)
+    }
+}
+
+pub fn gen_int_in(rng: &mut Rng, lo: i128, hi: i128) -> i128 {
+    match rng.below(8) {
+        0 => lo,
+        1 => hi,
+        2 => 0.max(lo).min(hi),
+        3 => (1i128).max(lo).min(hi),
+        4 => (-1i128).max(lo).min(hi),
+        5 => {
+            // power of two +-1
+            let k = rng.below(64) as u32;
+            let v = (1i128 << k) + rng.range(0, 2) as i128 - 1;
+            let v = if rng.bool() { -v } else { v };
+            v.max(lo).min(hi)
+        }
+        _ => {
+            let span = (hi - lo) as u128 + 1;
+            let r = ((rng.next() as u128) << 64 | rng.next() as u128) % span;
+            lo + r as i128
+        }
+    }
+}
+
+pub fn gen_bytes(rng: &mut Rng, max: usize) -> Vec<u8> {
+    let n = match rng.below(10) {
+        0 => 0,
+        1 => 1,
+        2 => 250,
+        3 => 251,
+        4 => 252,
+        5 => rng.range(253, 600) as usize,
+        _ => rng.range(0, 40) as usize,
+    }
+    .min(max);
+    match rng.below(4) {
+        0 => rng.bytes(n),
+        1 => vec![*rng.pick(&[0u8, 0xFB, 0xFF, b'#', b'N']); n],
+        _ => rng.ascii(n),
+    }
+}
+
+pub fn gen_temporal(rng: &mut Rng, typ: u8) -> Vec<u8> {
+    if typ == wire::T_TIME {
+        let len = *rng.pick(&[0usize, 8, 12]);
+        let mut b = Vec::new();
+        if len >= 8 {
+            b.push(0); // positive
+            b.extend_from_slice(&(rng.below(35) as u32).to_le_bytes());
+            b.push(rng.below(24) as u8);
+            b.push(rng.below(60) as u8);
+            b.push(rng.below(60) as u8);
+        }
+        if len == 12 {
+            b.extend_from_slice(&(rng.range(1, 999_999) as u32).to_le_bytes());
+        }
+        b
+    } else {
+        let lens: &[usize] = if typ == wire::T_DATE { &[0, 4] } else { &[0, 4, 7, 11] };
+        let len = *rng.pick(lens);
+        let mut b = Vec::new();
+        if len >= 4 {
+            b.extend_from_slice(&(rng.range(1, 9999) as u16).to_le_bytes());
+            b.push(rng.range(1, 12) as u8);
+            b.push(rng.range(1, 28) as u8);
+        }
+        if len >= 7 {
+            b.push(rng.below(24) as u8);
+            b.push(rng.below(60) as u8);
+            b.push(rng.below(60) as u8);
+        }
+        if len == 11 {
+            b.extend_from_slice(&(rng.range(1, 999_999) as u32).to_le_bytes());
+        }
+        b
+    }
+}
+
+/// All type codes msql-srv's parameter decoder supports.
+pub fn param_types() -> Vec<u8> {
+    let mut v = wire::STRINGISH.to_vec();
+    v.extend_from_slice(&INT_TYPES);
+    v.extend_from_slice(&[wire::T_FLOAT, wire::T_DOUBLE, wire::T_TIMESTAMP, wire::T_DATETIME, wire::T_DATE, wire::T_TIME]);
+    v
+}
+
+pub fn gen_param_of(rng: &mut Rng, typ: u8, unsigned: bool, null: bool) -> Param {
+    let value = if null {
+        None
+    } else if wire::int_width(typ).is_some() {
+        let (lo, hi) = int_range(typ, unsigned);
+        Some(PVal::Int(gen_int_in(rng, lo, hi)))
+    } else if typ == wire::T_FLOAT {
+        Some(PVal::F32(gen_f32_bits(rng)))
+    } else if typ == wire::T_DOUBLE {
+        Some(PVal::F64(gen_f64_bits(rng)))
+    } else if wire::is_stringish(typ) {
+        Some(PVal::Bytes(gen_bytes(rng, 100_000)))
+    } else {
+        Some(PVal::Temporal(gen_temporal(rng, typ)))
+    };
+    Param { typ, unsigned, value, long: false }
+}
+
+pub fn gen_param(rng: &mut Rng) -> Param {
+    let types = param_types();
+    let typ = *rng.pick(&types);
+    let unsigned = rng.bool();
+    let null = rng.chance(1, 6);
+    gen_param_of(rng, typ, unsigned, null)
+}
+
+pub fn gen_f32_bits(rng: &mut Rng) -> u32 {
+    loop {
+        let b = match rng.below(8) {
+            0 => 0,
+            1 => 0x8000_0000,
+            2 => 1,                // smallest subnormal
+            3 => 0x0080_0000,      // MIN_POSITIVE
+            4 => 0x7F7F_FFFF,      // MAX
+            5 => 0x3F80_0000,      // 1.0
+            _ => rng.next() as u32,
+        };
+        if f32::from_bits(b).is_finite() {
+            return b;
+        }
+    }
+}
+pub fn gen_f64_bits(rng: &mut Rng) -> u64 {
+    loop {
+        let b = match rng.below(8) {
+            0 => 0,
+            1 => 0x8000_0000_0000_0000,
+            2 => 1,
+            3 => 0x0010_0000_0000_0000,
+            4 => 0x7FEF_FFFF_FFFF_FFFF,
+            5 => 0x3FF0_0000_0000_0000,
+            _ => rng.next(),
+        };
+        if f64::from_bits(b).is_finite() {
+            return b;
+        }
+    }
+}
+
+pub fn param_cols(n: usize) -> Vec<Column> {
+    (0..n).map(|i| simple_col(&format!("p{}", i), ColumnType::MYSQL_TYPE_VAR_STRING)).collect()
+}
+
+/// Sequence-id check over the whole output (used by C05 and as a sanity layer elsewhere):
+/// returns descriptions of packets whose id is not the expected one.
+pub fn seq_violations(obs: &Obs, pkts: &[wire::Pkt], msgs: &[wire::Msg], d: &wire::Decoded) -> Vec<String> {
+    let mut out = Vec::new();
+    let mut ri = 0;
+    for (j, k) in obs.kinds.iter().enumerate() {
+        if !k.expects_reply() {
+            continue;
+        }
+        let Some(&(m0, m1)) = d.spans.get(ri) else { break };
+        ri += 1;
+        let start = if j == 0 { 0u8 } else { obs.ends[j - 1].1.wrapping_add(1) };
+        let p0 = msgs[m0].first;
+        let p1 = msgs[m1 - 1].first + msgs[m1 - 1].npkts;
+        for (n, p) in pkts[p0..p1].iter().enumerate() {
+            let want = start.wrapping_add(n as u8);
+            if p.seq != want {
+                out.push(format!(
+                    "exchange #{} ({:?}, request ended with id {}): response packet {} of {} carries id {}, expected {}",
+                    j,
+                    k,
+                    if j == 0 { "none".to_string() } else { obs.ends[j - 1].1.to_string() },
+                    n,
+                    p1 - p0,
+                    p.seq,
+                    want
+                ));
+                break;
+            }
+        }
+    }
+    out
+}
